@@ -1629,10 +1629,13 @@ def structural_refusals(ctx):
     ctx.analysed(f)
     diffs = {}
     for n in body_walk(f.node):
-        if isinstance(n, ast.Assign) and isinstance(n.targets[0], ast.Name) and isinstance(n.value, ast.BinOp) and isinstance(n.value.op, ast.Sub):
+        is_sub = isinstance(n, ast.Assign) and isinstance(n.targets[0], ast.Name) and isinstance(n.value, ast.BinOp) and isinstance(n.value.op, ast.Sub)
+        is_diff = isinstance(n, ast.Assign) and isinstance(n.targets[0], ast.Name) and isinstance(n.value, ast.Call) and call_attr(n.value) == 'difference' \
+            and len(n.value.args) == 1 and not n.value.keywords          # `given.difference(self.members)` reads `given - self.members`
+        if is_sub or is_diff:
             def txt(e, f=f):
                 return ' '.join(src(o) for o in (origins(e, f.node) if isinstance(e, ast.Name) else [e]))
-            lv, rv = txt(n.value.left), txt(n.value.right)
+            lv, rv = (txt(n.value.left), txt(n.value.right)) if is_sub else (txt(n.value.func.value), txt(n.value.args[0]))
             pv = [x for x in (f'({p})', f' {p} ', f'({p}.') ]
             has_p = lambda s_: any(x in f' {s_} ' for x in pv) or s_ == p   # noqa: E731
             if has_p(lv) and 'self.members' in rv:
@@ -1711,6 +1714,27 @@ def structural_refusals(ctx):
                         from_int = other.startswith('int(') or any(isinstance(x, ast.Call) and dotted(x.func) == 'int' for x in o)
                         if from_int and _side_never_completes(cfg, t.id, 'T' if op == '!=' else 'F'):
                             ok = True
+                        elif from_int:
+                            # single exit with a result variable: `result = None` in front, bound only on the integral side, `if result is
+                            # None: raise` at the end - walked with the bindings that are in force at the test
+                            env = {}
+                            for st in f.node.body:
+                                if st.lineno >= t.ast.lineno:
+                                    break
+                                if isinstance(st, ast.Assign) and len(st.targets) == 1 and isinstance(st.targets[0], ast.Name) and isinstance(st.value, ast.Constant) \
+                                        and st.value.value is None:
+                                    nm = st.targets[0].id
+                                    rebound = any(isinstance(x, ast.Name) and x.id == nm and isinstance(x.ctx, ast.Store) and st.lineno < x.lineno < t.ast.lineno
+                                                  for x in body_walk(f.node))
+                                    if not rebound:
+                                        env[nm] = False
+                                        env[f'{nm} is None'] = True
+                            if env:
+                                side = [b for b, lab in cfg.succ[t.id] if lab == ('T' if op == '!=' else 'F')]
+                                reach = reach_with_flags(cfg, side, avoid=[], env=env)
+                                rets = {i for x in body_walk(f.node) if isinstance(x, ast.Return) and x.value is not None for i in cfg.ids(x)}
+                                if side:
+                                    ok = not (rets & reach)
         ctx.check(ok, f'{f.qualname}:non-integral transport value is refused', f.node, 'int(value) != value raises',
                   'the transported value of a scaled integer is not compared with its integer conversion (or the unequal side does not raise): '
                   'a fraction or a numeric string from the wire is accepted and scaled', f)
@@ -1790,3 +1814,12 @@ def an_upper_limit_of_zero_is_a_given_limit(ctx):
                   'the empty value accepts (and returns) non-empty ones', f)
     if n < 3:
         raise AnchorMissing('constructors of the sized datatypes not found')
+
+
+@rule('C01.R7g', min_instances=1)
+def an_empty_optional_list_is_exported(ctx):
+    """shared with C03.R1d / C06.R10: a struct declared with optional=[] states that in its datainfo - when the key is dropped by
+    a truth test, the type rebuilt from the description (the client's, and every DataType.copy() of a command argument) takes all
+    members as optional and returns structs lacking mandatory members as valid"""
+    from sa.rules import c03
+    c03.struct_states_an_empty_optional_list(ctx)
